@@ -1562,8 +1562,7 @@ static long free_run(const program& p, long iters, long& bad_state)
         for (std::size_t i = 0; i < p.size(); ++i)
             th.emplace_back([&, i] {
                 while (!go.load(std::memory_order_relaxed)) // relaxed: no happens-before edge between the bodies
-                {
-                }
+                    std::this_thread::yield();
                 for (int op : p[i])
                     do_op(h.st, op, ret[i]);
             });
